@@ -99,6 +99,9 @@ type genOpts struct {
 	// ExactSecLens: stand-alone DataFrame objects whose CAR section payload (cid+data) has exactly these lengths
 	// (varint-width boundaries 127/128, 16383/16384, …) are written after the first blocks
 	ExactSecLens []int
+	// ExtraAccounts: additional (non-signer) account keys that transactions mention now and then, e.g. addresses
+	// chosen to collide in another epoch's index
+	ExtraAccounts []solana.PublicKey
 }
 
 func pp[T any](v T) **T { p := &v; return &p }
@@ -258,6 +261,9 @@ func genEpoch(rng *zz.RNG, dir string, o genOpts) *gEpoch {
 		for t := 0; t < nTx; t++ {
 			payer := ge.Keys[rng.Intn(len(ge.Keys))]
 			other := ge.Keys[rng.Intn(len(ge.Keys))].PublicKey()
+			if len(o.ExtraAccounts) > 0 && rng.Intn(3) == 0 {
+				other = o.ExtraAccounts[rng.Intn(len(o.ExtraAccounts))]
+			}
 			isVote := rng.Intn(3) == 0
 			failed := rng.Intn(3) == 0
 			pid := prog
